@@ -394,7 +394,7 @@ func init() {
 		// math/rand/v2.Uint32 (skiplist tower heights): a symbolic choice between a value that gives
 		// height 1 and one that gives height 2 with arenaskl's probability table
 		"math/rand/v2.Uint32": func(m *Machine, fr *frame, a []Value) Value {
-			if m.chooseAmong(fr, 2, "rand.Uint32") == 0 {
+			if m.fixRandom || m.chooseAmong(fr, 2, "rand.Uint32") == 0 {
 				return Const(32, 0xFFFFFFFF)
 			}
 			return Const(32, 0x40000000)
